@@ -89,6 +89,9 @@ class Environment:
     def path(self):
         return self._path
 
+    def max_key_size(self):
+        return MAX_KEY_SIZE
+
     def begin(self, db=None, parent=None, write=False, buffers=False):
         if self._closed:
             raise Error("Attempt to operate on closed/deleted/dropped object.")
